@@ -141,7 +141,7 @@ func actions(r *mc.Run) []action {
 func main() {
 	r := mc.NewRun("C12")
 	depth := mc.Pick(r, 4, 5)
-	r.Rule(fmt.Sprintf("E3 BFS to depth %d over real CLI commands {bootstrap, bootstrap --overwrite, rotate, rotate --overwrite 21 years into the root's validity, rotate with serial override 7, wipeout, wipeout ca, wipeout keys} (thorough adds --keep_going, common-name, +1y and +24y variants) from the empty world, for memkm+memca, memkm+gcsca and localkm+localca; canonical state = sorted certificate profiles, manifest entries, primary names, live key names, object names plus the naming epoch; non-trivial = distinct reached states with a bootstrapped chain", depth))
+	r.Rule(fmt.Sprintf("E3 BFS to depth %d over real CLI commands {bootstrap, bootstrap --overwrite, rotate, rotate --overwrite 21 years into the root's validity, rotate with serial override 7, wipeout, wipeout ca, wipeout keys} (thorough adds --keep_going, common-name, +1y and +24y variants) from the empty world, for memkm+memca, memkm+gcsca and localkm+localca; plus three-command lines over the alphabet extended by serials beyond 64 bits: on one long-lived set of objects (memkm+gcsca, localkm+localca), per command (memkm+memca) and through the library calls of the commands against the Cloud KMS manager over a model service (gcpkms+memca, gcpkms+gcsca); canonical state = sorted certificate profiles, manifest entries, primary names, live key names, object names plus the naming epoch; non-trivial = distinct reached states with a bootstrapped chain", depth))
 	r.Assume("'names are not reused between wipeouts' is read with bootstrap --overwrite starting a new naming epoch, like a key wipeout (it regenerates the keys under the configured names by design)")
 	r.Assume("'issued by that root' is required of certificates minted since the latest bootstrap; older manifest entries that survive a bootstrap --overwrite are not judged")
 	defer kmfx.Cleanup()
